@@ -28,3 +28,14 @@ import (
 func VerifSyncDAG(ctx context.Context, blockService blockservice.BlockService, block *coreblock.Block) error {
 	return syncDAG(ctx, blockService, block)
 }
+
+// VerifGate, when set by the external verification harness, is called at the named points of
+// the replicator protocol. It may block (to hold the goroutine at that point) and it may record
+// the event. It is nil unless a harness installs it.
+var VerifGate func(point string, p *Peer, key string)
+
+func verifGate(point string, p *Peer, key string) {
+	if gate := VerifGate; gate != nil {
+		gate(point, p, key)
+	}
+}
